@@ -555,6 +555,8 @@ class Tensor:
             raise RuntimeError("result type %s can't be cast to the desired output type %s" % (dt, self.dtype))
         try:
             res = f(self.a, ov)
+            if not _isinstance(res, _np.ndarray):
+                res = _objarr(res)          # (operations on 0-d object arrays return the bare object)
             if res.shape != self.a.shape:
                 raise RuntimeError('output with shape %s doesn\'t match the broadcast shape %s' % (list(self.a.shape), list(res.shape)))
             self.a[...] = res
@@ -2026,6 +2028,10 @@ def imag(t):
 # --------------------------------------------------------------------------- nn.functional
 def _pad(t, pad, mode='constant', value=0):
     pad = [int(p) for p in pad]
+    if _isinstance(value, Tensor):
+        if value.a.size != 1:
+            raise RuntimeError('pad: value must be a number or a one-element tensor')
+        value = value.a.reshape(())[()]
     if len(pad) % 2 != 0 or len(pad) // 2 > t.a.ndim:
         raise RuntimeError('Padding length must be divisible by 2 and at most twice the number of dimensions')
     if value is None:
